@@ -35,6 +35,27 @@ def sliceWitnessCheck (r : BuildResult) : Bool :=
     p.spans.get ⟨[0], .elementStart⟩ == some ⟨1, 4⟩ && p.spans.get ⟨[0, 2], .text⟩ == some ⟨29, 44⟩
   | _ => false
 
+/-- The spans around which Props/C17.lean shows the delimiters, on the same text: `ElementEnd` = `</p:a>`
+    (63..69), the comment body `k` (51..52), the PI target `pi` (57..59) and data `d` (60..61). -/
+def delimWitnessCheck (r : BuildResult) : Bool :=
+  match r with
+  | .ok p =>
+    p.spans.get ⟨[0], .elementEnd⟩ == some ⟨63, 69⟩ && p.spans.get ⟨[0, 3], .comment⟩ == some ⟨51, 52⟩ &&
+    p.spans.get ⟨[0, 4], .piTarget⟩ == some ⟨57, 59⟩ && p.spans.get ⟨[0, 4], .piContent⟩ == some ⟨60, 61⟩
+  | _ => false
+
+/-- `<a><![CDATA[c]]>t</a>`: a text node whose run starts with a CDATA section. -/
+def cdataFirstWitness : List Token :=
+  [.elementStart ⟨[], 0⟩ ⟨['a'], 0⟩ ⟨[], 0⟩, .elementEnd .open ⟨[], 0⟩, .cdata ⟨['c'], 0⟩ ⟨[], 0⟩,
+   .text ⟨['t'], 0⟩, .elementEnd (.close ⟨[], 0⟩ ⟨['a'], 0⟩) ⟨[], 0⟩]
+
+def cdataFirstCheck (r : BuildResult) : Bool :=
+  match r with
+  | .ok p =>
+    (match p.tree.at? [0, 0] with | some (.node (.text v) _) => v == ['c', 't'] | _ => false) &&
+    p.spans.get ⟨[0, 0], .text⟩ == some ⟨12, 17⟩
+  | _ => false
+
 /-- `<?XmL d?><a/>` (13 bytes) and `<a xmlns:p=""/>` (15 bytes), with their positions. -/
 def xmlPiDoc : List Token :=
   [.pi ⟨['X', 'm', 'L'], 2⟩ (some ⟨['d'], 6⟩) ⟨['<', '?', 'X', 'm', 'L', ' ', 'd', '?', '>'], 0⟩,
